@@ -379,8 +379,8 @@ def _work_random(args):
                     except OSError:
                         ev = [{'op': 'Protein', 'lens1': lens1, 'lens2': lens2, 'outcome': 'error', 'pairs': []}]
                     # an explicitly empty list is the user's list: nothing is guessed, whatever the residue structure
-                    if sum(lens1) != 1 and sum(lens2) != 1 and tid % 2 == 0:
-                        obs = route_observe(mols[0], mols[1], [] if tid % 4 else (), False)
+                    if sum(lens1) != 1 and sum(lens2) != 1 and (tid // 4) % 2 == 0:
+                        obs = route_observe(mols[0], mols[1], [] if (tid // 8) % 2 else (), False)
                         ev.append({'op': 'Route', 'nS': sum(lens1), 'nE': sum(lens2), 'hS': [], 'hE': [],
                                    'restr': [], 'ignoreH': False, 'called': obs['called'],
                                    'fixed': obs['fixed'], 'delivered': obs['delivered'], 'rows': obs['rows'],
